@@ -1,0 +1,11 @@
+//go:build verif
+
+package node
+
+import "github.com/evstack/ev-node/block"
+
+// This file is compiled only with the `verif` build tag.
+
+// VerifBlockManager exposes the node's block manager for post-mortem inspection by the
+// deterministic-simulation harness.
+func (n *FullNode) VerifBlockManager() *block.Manager { return n.blockManager }
